@@ -248,14 +248,14 @@ def inspect_spec_id(cfg: dict, scratch: str) -> Optional[str]:
 
 
 def launch_ids(pipe: str, rs: dict, scratch: str, extra: List[str], csv_variant: Optional[int] = None, touch: bool = False, yaml_text: Optional[str] = None,
-               subdir: bool = False, prepare=None):
+               subdir: bool = False, prepare=None, decoy_variant: int = 7):
     """subdir: the configuration and its source file live in <scratch>/cfg while the process works in <scratch>, where a DECOY
     runs.csv with other content lies: relative source paths are relative to the configuration file, not to the working directory."""
     harness.clear_dir(scratch)
     if subdir:
         os.mkdir(os.path.join(scratch, "cfg"))
         write_csv(os.path.join(scratch, "cfg"), 3, csv_variant or 0)
-        write_csv(scratch, 2, 7)
+        write_csv(scratch, 2, decoy_variant)
         return _launch_ids_in(pipe, rs, scratch, os.path.join(scratch, "cfg"), extra, yaml_text)
     write_csv(scratch, 3, csv_variant or 0)
     if prepare is not None:
@@ -400,6 +400,18 @@ def judge_ids(scratch: str, tier: str) -> Tuple[int, List[Tuple[str, str, dict]]
                     bad("relative-source-path-not-relative-to-config",
                         f"same configuration + source file in a sub-directory (a decoy runs.csv in the working directory): spec {sd['run_space_spec_id'][:12]} vs {spec[:12]}, "
                         f"factors of the runs {got}")
+                # ... and it is the configuration's file that is fingerprinted, not its namesake in the working directory
+                sd2, _, _ = launch_ids(pipe, rs, scratch, [], subdir=True, decoy_variant=8)
+                sd3, _, _ = launch_ids(pipe, rs, scratch, [], subdir=True, csv_variant=1)
+                n_eval += 2
+                if sd2 is None or sd3 is None:
+                    bad("launch-bracket-broken", "no run_space_start for the configuration in a sub-directory")
+                else:
+                    if sd2.get("run_space_inputs_id") != sd.get("run_space_inputs_id"):
+                        bad("inputs-id-follows-unrelated-file", "the inputs id changed although only the namesake file in the working directory (which the "
+                            "configuration does not reference) changed")
+                    if sd3.get("run_space_inputs_id") == sd.get("run_space_inputs_id"):
+                        bad("inputs-id-ignores-file-content", "the referenced file (next to the configuration, not in the working directory) changed, the inputs id did not")
             # a source file of several MiB (read in chunks) whose variants differ in their LAST byte only
             rs_big = {"blocks": [{"mode": "by_position", "context": {"a": [0.0, 0.0, 0.0]}, "source": {"format": "json", "path": "big.json", "select": ["value", "factor"]}}]}
             big_ids = []
@@ -498,3 +510,38 @@ def replay(case) -> List[Violation]:
         return [Violation(s, m, c) for s, m, c in v if c["rs"] == case["rs"] and c["pipe"] == case["pipe"]]
     v = judge_launch(case["pipe"], case["rs"], case["nruns"], case["fail_at"], case["mode"], scratch)
     return [Violation(s, m, c) for s, m, c in v]
+
+
+# ---------------------------------------------------------------------------------------------
+# environment grid (mc/envgrid.py): a launch equals its standalone runs, and the run-space spec id is the same, in every process
+
+ENV_SKIP = {"warnings-as-errors": "`semantiva inspect` goes through semantiva.inspection.build(), which announces its own deprecation with a "
+                                  "DeprecationWarning; a host that asks for warnings to be fatal gets exit 3 from inspect on the unchanged tree - "
+                                  "that is the host's request being honoured, not a run-space identity changing"}
+
+
+def env_cases(tier: str):
+    out = [{"kind": "launch", "pipe": pipe, "rs": rsname, "nruns": 3, "fail_at": fa, "mode": mode}
+           for pipe, rsname, fa, mode in [("plain", "zip", None, "file"), ("plain", "csv", 1, "dir"), ("two", "product", 0, "file"),
+                                          ("plain", "two-blocks", 2, "dir"), ("sweep", "sweepctx", None, "file"), ("plain", "unicode", None, "file")]
+           if rsname in COMPAT.get(pipe, [])]
+    out += [{"kind": "ids", "pipe": pipe, "rs": rsname} for pipe, rsname in [("plain", "zip"), ("plain", "csv"), ("two", "product"), ("plain", "deep"), ("plain", "unicode")]]
+    return out
+
+
+def env_observe(case):
+    from mc import envgrid
+
+    scratch = envgrid.scratch()
+    if case["kind"] == "launch":
+        v = judge_launch(case["pipe"], case["rs"], case["nruns"], case["fail_at"], case["mode"], scratch)
+        return envgrid.norm({"judged": sorted({sig for sig, _, _ in v})}, scratch)
+    rs = run_spaces(None, 3)[case["rs"]]
+    st, cfg, res = launch_ids(case["pipe"], rs, scratch, ["--run-space-idempotency-key", "k1"])
+    st2, _, _ = launch_ids(case["pipe"], rs, scratch, ["--run-space-idempotency-key", "k1"])
+    if st is None or st2 is None:
+        return {"launch": "no run_space_start", "exit": res.code}
+    return envgrid.norm({"spec_id": st.get("run_space_spec_id"), "planned": st.get("run_space_planned_run_count"), "combine": st.get("run_space_combine"),
+                         "keyed_launch_id_reproducible": st.get("run_space_launch_id") == st2.get("run_space_launch_id"),
+                         "inputs_id_reproducible": st.get("run_space_inputs_id") == st2.get("run_space_inputs_id"),
+                         "inspect_spec_id": inspect_spec_id(cfg, scratch)}, scratch)
